@@ -276,6 +276,9 @@ def _ret_value(act, ev, sp, prog, att, v, uid, bid, local, state_val=None):
             extra["result"] = {"v": v, "waited": None if w is None else w.get("v", None), "timed_out": local.get("timed_out", False)}
         elif res == "state":
             extra["result"] = {"v": v, "state": state_val}
+        elif res == "collected_set":
+            # the set only: independent of which event happened to complete the collection
+            extra["result"] = {"got": sorted(str(x.get("v", None)) for x in local.get("collected", []))}
         elif res == "const":
             extra["result"] = {"done": True, "in": str(v)}
         else:
@@ -285,6 +288,15 @@ def _ret_value(act, ev, sp, prog, att, v, uid, bid, local, state_val=None):
     e = mk_event(t, cv, extra)
     r.add("emit", how="return", step=step, bid=bid, att=att, uid=e.get("uid"), v=cv, type=t, target=None, parent=uid)
     return e
+
+
+def _send(ctx, e, target, step, bid):
+    """ctx.send_event with the refusal recorded: an event a step sends must be taken by the engine"""
+    try:
+        ctx.send_event(e, step=target)
+    except Exception as x:  # noqa: BLE001
+        REC.add("send_error", step=step, bid=bid, uid=e.get("uid"), exc=type(x).__name__, msg=str(x)[:200], thread=threading.current_thread() is not threading.main_thread())
+        raise
 
 
 def _collect_act(ctx, ev, act, step, bid, uid, local):
@@ -339,6 +351,13 @@ def _interp_sync(ctx, ev, sp, prog):
                     if act.get("cont"):
                         continue
                     return None
+            elif k == "send":
+                ai = sp["acts"].index(act)
+                for i, item in enumerate(act["items"]):
+                    cv = f"{v}>{step}.{ai}.{i}"
+                    e = mk_event(act["type"], cv, item)
+                    r.add("emit", how="send", step=step, bid=bid, att=att, uid=e.get("uid"), v=cv, type=act["type"], target=act.get("target"), parent=uid)
+                    _send(ctx, e, act.get("target"), step, bid)
             elif k == "ret":
                 out = _ret_value(act, ev, sp, prog, att, v, uid, bid, local)
                 return out
@@ -380,7 +399,7 @@ async def _run_acts(ctx, ev, sp, prog, att, v, uid, bid):
                 e = mk_event(act["type"], cv, item)
                 r.add("emit", how="send", step=step, bid=bid, att=att, uid=e.get("uid"), v=cv, type=act["type"], target=act.get("target"),
                       parent=uid)
-                ctx.send_event(e, step=act.get("target"))
+                _send(ctx, e, act.get("target"), step, bid)
                 gap = act.get("gap")
                 if gap is not None:
                     await asyncio.sleep(gap)
@@ -393,7 +412,7 @@ async def _run_acts(ctx, ev, sp, prog, att, v, uid, bid):
                 e = mk_event(act["type"], cv, {"lat": [lat], "fails": fl})
                 r.add("emit", how="send", step=step, bid=bid, att=att, uid=e.get("uid"), v=cv, type=act["type"], target=act.get("target"),
                       parent=uid)
-                ctx.send_event(e, step=act.get("target"))
+                _send(ctx, e, act.get("target"), step, bid)
         elif k == "fail":
             n = _val(act.get("n", 1), ev, att, 0)
             if n < 0 or att < n:
@@ -443,6 +462,8 @@ async def _run_acts(ctx, ev, sp, prog, att, v, uid, bid):
             ctx.write_event_to_stream(e)
         elif k == "state":
             op = act["op"]
+            if "{i}" in act["key"]:
+                act = {**act, "key": act["key"].replace("{i}", str(ev.get("i", None)))}
             if prog.get("typed_state"):
                 async with ctx.store.edit_state() as s:
                     if op == "append":
